@@ -16,6 +16,7 @@ import (
 	"net/url"
 	"os"
 	"path/filepath"
+	"runtime"
 	"strconv"
 	"strings"
 	"sync"
@@ -149,6 +150,7 @@ func (m *ratioMeter) Rating() float64 {
 }
 func (m *ratioMeter) Record(code int, _ time.Duration) {
 	m.all++
+	runtime.Gosched() // a wide window: a caller that records outside the rebalancer's lock overlaps with another
 	if code >= 500 {
 		m.bad++
 	}
